@@ -100,7 +100,8 @@ func filesV2() *vschema.File {
 func filesD(rev int) *vschema.File {
 	d1 := get("/rs/d1/{a}")
 	if rev == 2 {
-		d1 = with(get("/rs/d1/{a}"), get("/rs/d1v2/{a}"))
+		// two bindings below sibling variable nodes of one trie node
+		d1 = with(get("/rs/d1/{a}"), get("/rs/d1v2/{a}"), get("/rs/{a=orgs/*/things/*}"), get("/rs/{b=projects/*/things/*}"))
 	}
 	d2 := get("/rs/d2/{a}")
 	if rev == 3 {
